@@ -399,6 +399,48 @@ def flux_1d_agree(check):
                 _decide(check, "FLUX-1D-AGREE", f2.qualname, f2.loc(), A, a, b, "%s flux through a face with normal along %s and no transverse velocity == the 1D %s flux" % (what, axis, f1.name), key="agree-%s-%s" % (axis, what.split()[0]))
 
 
+def bc_1d_agree(check):
+    """2D boundary functions with a grid-aligned normal and no transverse velocity == their 1D
+    siblings (same registered name), for ALL interior states and parameters -- the clamps
+    max(0, .) are kept as selections, so the blocked-inlet regime (interior pressure above the
+    imposed total pressure) is compared too"""
+    from ..interp import SelfObj, ParamDict
+    proj = check.proj
+    c1 = proj.cls(MODELS["euler1d"]["cls"])
+    c2 = proj.cls(MODELS["euler2d"]["cls"])
+    r1 = proj.instance_registry(c1, "_bcdict")
+    r2 = proj.instance_registry(c2, "_bcdict")
+    names = sorted(n for n in r2 if n in r1 and n != "dirichlet")
+    check.floor("boundary conditions registered for both 1D and 2D Euler", len(names), 5)
+    for nm in names:
+        f1, f2 = r1[nm], r2[nm]
+        for axis in ("x", "y"):
+            for sgn in (+1, -1):
+                ctx = Ctx(proj, "euler2d")
+                A = ctx.alg
+                A.start_clock()
+                rho, u, p = A.sym("rho", positive=True), A.sym("u"), A.sym("p", positive=True)
+                prm = lambda: ParamDict({"ptot": A.sym("ptot", positive=True), "rttot": A.sym("rttot", positive=True), "p": A.sym("p_imposed", positive=True)})
+                z, d = A.const(0), A.const(sgn)
+                n2, W2 = (Vec(d, z), [rho, Vec(u, z), p]) if axis == "x" else (Vec(z, d), [rho, Vec(z, u), p])
+                try:
+                    o2 = ctx.call(f2, n2, W2, prm())
+                    so1 = SelfObj(c1, dict(ctx.selfobj.attrs))
+                    o1 = ctx.interp.call_function(f1, [so1, d, [rho, u, p], prm()])
+                except AnalysisError as e:
+                    check.undecided("BC-1D-AGREE", f2.qualname, "%s: %s" % (nm, e), f2.loc())
+                    continue
+                v2 = o2[1]
+                if not isinstance(v2, Vec):
+                    check.violation("BC-1D-AGREE", f2.qualname, "2D '%s' does not return a velocity vector" % nm, f2.loc(), key="rank")
+                    continue
+                normal, trans = (v2.x, v2.y) if axis == "x" else (v2.y, v2.x)
+                side = "%s%s" % ("+" if sgn > 0 else "-", axis)
+                for a, b, what in ((o2[0], o1[0], "density"), (normal, o1[1], "normal velocity"), (o2[2], o1[2], "pressure"), (trans, z, "transverse velocity (must vanish)")):
+                    _decide(check, "BC-1D-AGREE", f2.qualname, f2.loc(), A, ctx.interp.lift(a), ctx.interp.lift(b),
+                            "'%s' on a boundary of outward normal %s, no transverse velocity: 2D %s == 1D %s for every interior state and parameter set (clamped regimes included)" % (nm, side, what, f1.name), key="bc1d-%s-%s-%s" % (nm, side, what.split()[0]))
+
+
 def compose_x(D, stages):
     """x-direction face states with the gradient relations substituted: L|if[i,j], R|if[i,j] as
     functions of cell values (interior relations)"""
@@ -653,5 +695,6 @@ def _body(check):
     check.guarded("BC-2D-SITE", "modeldisc.fvm2dcart.calc_bc", lambda: bc_sites(check))
     check.guarded("ROW-1D-AGREE", "xnum", lambda: row_1d_agree(check))
     check.guarded("FLUX-1D-AGREE", "euler2d", lambda: flux_1d_agree(check))
+    check.guarded("BC-1D-AGREE", "euler2d", lambda: bc_1d_agree(check))
     check.guarded("KAPPA-2D", "xnum.extrapol2dk", lambda: kappa_2d(check))
     check.guarded("SEAM-2D", "modeldisc.fvm2dcart.calc_bc_grad", lambda: seam_2d(check))
